@@ -175,8 +175,11 @@ def dump_tables(out, grids, thorough, max_elems=4):
     for name, grid, dom in grids:
         for kind, deg in KINDS:
             for o in segment_options(dom, kind, thorough)[:(4 if thorough else 2)]:
-                sp = api.function_space(grid, kind, deg, **o)
-                bs = sp.barycentric_representation()
+                try:
+                    sp = api.function_space(grid, kind, deg, **o)
+                    bs = sp.barycentric_representation()
+                except Exception:
+                    continue                      # reported (with the input) by search_pointwise
                 D = bs.dof_transformation.tocsr()
                 nd = 1 if kind == "DP" else 3
                 nb = 1 if kind == "DP" else 3
@@ -246,7 +249,11 @@ def main():
     for nm, fn in steps:
         if nm in parts:
             t = time.time()
-            fn()
+            try:
+                fn()
+            except Exception:
+                import traceback
+                out.setdefault("crashed", {})[nm] = traceback.format_exc()[-3000:]
             out["timing"][nm] = round(time.time() - t, 1)
             log(nm, "done", out["timing"][nm], "s; failures so far:", len(out["failures"]))
     print("@@JSON " + json.dumps(out))
